@@ -15,15 +15,27 @@ RULE = ('systematic sweep kernel x element type (all members of the fused lists 
         '(C, Fortran, every-other row/column, reversed, random start/step +-1..3 views of C/F bases inside '
         'poisoned memory) with y layout (contiguous/strided/reversed), out mode (none/contiguous/strided/'
         'reversed view of a garbage buffer incl. NaN/inf), OpenMP thread count 1..16 and value class '
-        '(small, dtype extremes, huge same-sign, mid, overflowing, quarters, general floats) cycling, plus '
+        '(small, dtype extremes, huge same-sign, mid, overflowing, quarters, general floats, floats scaled to '
+        '1e+-150 (1e+-15 for float32) and beyond the square range, 0-2 ulp from y, signed zeros, NaN/inf rows, rows '
+        'equal to y) cycling, read-only X / y and np.matrix X at random, plus '
         'random combinations, sizes 0/1/few/70 rows, every thread count on 40-120 row problems, large '
         '(2000-6000 rows) problems under all 16 thread counts repeated; shape sweep at fast-path thresholds '
         '(few very wide rows n in 1,2,3,7,15 x w 1023..65536, 20000-300000 rows of width 1-2, n around the '
         'thread count, n*w in the millions) with threads 1,2,4,8,16 x 3 repetitions, bit-compared with the '
         '1-thread result and the exact value; malformed stream: wrong ranks, width '
         'mismatches, out of wrong dtype/length/rank/0-d/read-only, mixed / unsupported / byte-swapped dtypes. '
+        'call sequences on shared memories: y = a row of X (also through _get_distance_method by name / by callable), '
+        'y a strided view of X\'s buffer, zero-stride broadcast X / y, one out buffer reused with different n and '
+        'positionally, the same argument objects three times, out overlapping X or y (memory safety only), earlier '
+        'results re-read at the end; malformed also: lists / tuples, byte-swapped y / out. '
         'A valid case is non-trivial when n>0 and w>0; distinct by canonical input.')
 ASSUMPTIONS = [
+    'float rows whose difference or square leaves the normal range of the element format (1e+-200 doubles, 1e+-25 '
+    'singles: the square under/overflows in pow/powf) and rows containing NaN/inf are not judged (skipped and counted): '
+    'the property is read as the float64 evaluation of the norm, not as a rescaled (hypot-like) algorithm; all other rows of '
+    'the same call are judged, with a tolerance relative to the value itself (never absolute)',
+    'an out buffer overlapping X or y is outside the property for the values; only shape, no crash and no write outside '
+    'out are checked there',
     'float rounding is not modelled: results are compared bit-for-bit only when the exact evaluation involves no '
     'rounding (integer-valued / dyadic inputs, all partial sums representable; sqrt correctly rounded), otherwise '
     'within 1e-12 relative (1e-5 for float32 data, whose differences and squares are formed in single precision)',
@@ -1435,7 +1447,7 @@ def gen_valid_cases(ctx):
         for dt in dts:
             for xl in X_LAYOUTS:
                 combos.append((kernel, dt, xl))
-    reps = ctx.n(2, 10)
+    reps = ctx.n(3, 10)
     k = int(rng.integers(0, 1000))
     for rep in range(reps):
         for kernel, dt, xl in combos:
@@ -1444,7 +1456,7 @@ def gen_valid_cases(ctx):
             n, w = _sizes(rng)
             cases.append(make_valid_case(rng, kernel, dt, xl, Y_LAYOUTS[(k // 3) % 3], OUT_MODES[k % 4],
                                          vcs[(k // 5 + rep) % len(vcs)], n, w, 1 + (k % 16)))
-    extra = ctx.n(300, 6000)
+    extra = ctx.n(600, 6000)
     for _ in range(extra):
         kernel = ['euclidean', 'manhattan', 'hamming'][int(rng.integers(0, 3))]
         dts = KERNEL_TYPES[kernel]
@@ -1663,7 +1675,7 @@ def gen_scripts(ctx):
     positional (X, X[i]))"""
     rng = ctx.rng
     scripts = []
-    reps = ctx.n(1, 8)
+    reps = ctx.n(2, 8)
 
     def thr():
         return int(rng.integers(1, 17))
